@@ -29,6 +29,11 @@ class Gen:
         opening tag as the closing tag, a tolerance for a common typo; such markup is not well-formed)."""
         r = self.rng
         out = []
+        if allow_link and r.random() < 0.06:            # nothing but unlabelled links
+            for _ in range(r.randint(1, 2)):
+                self.n += 1
+                out.append(("link", "Tq%dz" % self.n, None))
+            return out
         for _ in range(r.randint(1, 3)):
             k = r.random()
             if depth <= 0 or k < 0.45:
@@ -70,11 +75,20 @@ class Gen:
         cap = self.words(1, 2) if r.random() < 0.3 else None
         return ("table", cap, rows)
 
+    def dl(self):
+        r = self.rng
+        entries = []
+        for _ in range(r.randint(1, 3)):
+            entries.append((self.inlines(1, allow_ref=False), self.inlines(1, allow_ref=False), r.random() < 0.5))
+        return ("dl", entries)
+
     def block(self, depth):
         r = self.rng
         k = r.random()
-        if k < 0.5:
+        if k < 0.45:
             return ("para", self.inlines(2))
+        if k < 0.52:
+            return self.dl()
         if k < 0.72:
             return self.lst(1)
         if k < 0.9:
@@ -167,6 +181,15 @@ class Render:
             return [self.inl(b[1])]
         if k == "list":
             return self.lst(b)
+        if k == "dl":
+            lines = []
+            for term, desc, inline in b[1]:
+                if inline:
+                    lines.append(";" + self.ch(" ", "") + self.inl(term) + " : " + self.inl(desc))
+                else:
+                    lines.append(";" + self.ch(" ", "") + self.inl(term))
+                    lines.append(":" + self.ch(" ", "") + self.inl(desc))
+            return lines
         if k == "table":
             return self.table(b)
         if k == "pre":
@@ -240,6 +263,14 @@ def denote(d):
             inl(b[1], ctx)
         elif k == "list":
             lst(b, ctx)
+        elif k == "dl":
+            for term, desc, _ in b[1]:
+                c = dict(ctx)
+                c["dl"] = "term"
+                inl(term, c)
+                c = dict(ctx)
+                c["dl"] = "desc"
+                inl(desc, c)
         elif k == "table":
             _, cap, rows = b
             if cap is not None:
@@ -258,7 +289,7 @@ def denote(d):
                 inl(line, c)
 
     base = dict(section=(), lists=(), cell=None, caption=False, styles=frozenset(), link=None, ext=None, ref=False, pre=False,
-                heading=False)
+                heading=False, dl=None)
 
     def section(s, ctx):
         _, level, title, blocks, subs = s
@@ -351,6 +382,12 @@ def read_tree(root):
                 else:
                     walk(ch, c, None)
             return
+        elif name == "DefinitionTerm" or (name == "Style" and getattr(n, "caption", "") == ";"):
+            c = dict(ctx)
+            c["dl"] = "term"
+        elif name == "DefinitionDescription" or (name == "Style" and getattr(n, "caption", "") == ":"):
+            c = dict(ctx)
+            c["dl"] = "desc"
         elif name in ("Style",) or name in STYLE_OF:
             key = name if name in STYLE_OF and name != "Style" else (getattr(n, "caption", "") or "")
             st = STYLE_OF.get(key)
@@ -381,7 +418,7 @@ def read_tree(root):
             walk(ch, c, table_state)
 
     base = dict(section=(), lists=(), cell=None, caption=False, styles=frozenset(), link=None, ext=None, ref=False, pre=False,
-                heading=False)
+                heading=False, dl=None)
     walk(root, base, None)
     return out
 
